@@ -1,6 +1,6 @@
-from .registry import reg, mon
+from .registry import reg, mon, cargotest
 
-reg("C35", [mon("hydro", "hv_net_emb")],
+reg("C35", [mon("hydro", "hv_net_emb"), cargotest("hydro", "hv_net_flows", "tests::c35_sim_network")],
     technique="runtime monitor: sender/receiver code emitted by the production generator (generate_embedded) for every "
               "process/cluster networking shape x payload type, instantiated once per member; the harness is the transport "
               "(routes each frame by the member-id tag the generated code emitted, tags with the sender id); received "
